@@ -82,6 +82,39 @@ fn log_one(l: &dyn Log, tid: u64, seq: u64, len: usize) {
 
 static FAILFMT: std::sync::atomic::AtomicBool = std::sync::atomic::AtomicBool::new(false);
 
+/// conform mode for free-running threads (TraceFlwConc.tla): the harness' own events (begin / end of a log call,
+/// begin / end of shutdown()) go into the same totally ordered list as the hook points of the code
+fn ev_mark(name: &str, k: u64) {
+    if h().record.load(Ordering::SeqCst) {
+        let t = std::thread::current().name().unwrap_or("app").to_string();
+        h().points.lock().unwrap().push((name.to_string(), k.to_string(), t));
+    }
+}
+
+/// (name, arg, thread) -> event line of the trace; None: not an event of FlwConc.tla (rotation and cleanup effects,
+/// flusher threads)
+fn conc_event(name: &str, arg: &str, thread: &str) -> Option<Value> {
+    let p: i64 = if let Some(x) = thread.strip_prefix('p') {
+        x.parse().ok()?
+    } else if thread == "flexi_logger-async_file_writer" {
+        0
+    } else {
+        -1
+    };
+    let ev = match (name, p) {
+        ("ev:begin", 1..) => "B",
+        ("ev:end", 1..) => "E",
+        ("sc:formatted", 1..) => "Fm",
+        ("sc:before_send", 1..) => "Bs",
+        ("fs:write", 0..) => "W",
+        ("sc:writer_recv", 0) => "Rv",
+        ("ev:shutdown_begin", _) => "SdB",
+        ("ev:shutdown_end", _) => "SdE",
+        _ => return None,
+    };
+    Some(json!({"ev": ev, "p": p, "k": arg.parse::<u64>().unwrap_or(0)}))
+}
+
 fn lens_of(sc: &Value) -> Vec<usize> {
     sc["lens"]
         .as_array()
@@ -136,7 +169,11 @@ fn drive2(sc: &Value, logger: Arc<Box<dyn Log>>, raw: Option<flexi_logger::write
                                         let line = format!("{}\n", obs::message(tid * 100_000 + seq, len.max(9), 1));
                                         let _ = std::io::Write::write_all(w, line.as_bytes());
                                     }
-                                    _ => log_one(&**lg, tid, seq, len),
+                                    _ => {
+                                        ev_mark("ev:begin", seq);
+                                        log_one(&**lg, tid, seq, len);
+                                        ev_mark("ev:end", seq);
+                                    }
                                 }
                             }
                         }))
@@ -288,7 +325,8 @@ pub fn run(args: &[String]) {
             "steps": sc.get("steps").cloned().unwrap_or(json!([])), "origin": sc.get("origin").cloned().unwrap_or(json!("")),
             "failfmt": sc.get("failfmt").cloned().unwrap_or(json!(false)),
             "norm": {"mode": cfg.mode, "naming": cfg.naming, "rot": cfg.rot, "clean": cfg.clean(), "out": out, "kind": kind}});
-        writeln!(outw, "{}", begin).unwrap();
+        let tracing = sc["trace"].as_bool().unwrap_or(false) && out == "file" && kind == "stress";
+        let mut begin = begin;
         let mut ev = json!({"sc": scid, "n": 2, "ev": "Final"});
         if out == "file" {
             h().set_clock(1000);
@@ -321,12 +359,19 @@ pub fn run(args: &[String]) {
             match built {
                 Ok((logger, handle)) => {
                     let logger = Arc::new(logger);
+                    if tracing {
+                        h().take_points();
+                        h().record.store(true, Ordering::SeqCst);
+                    }
                     let (ret, blocked) = drive2(&sc, logger.clone(), rawarc.as_ref().map(|x| x.0.clone()));
                     drop(rawarc.take());
                     let r2 = catch_unwind(AssertUnwindSafe(|| {
+                        ev_mark("ev:shutdown_begin", 0);
                         handle.shutdown();
+                        ev_mark("ev:shutdown_end", 0);
                         drop(handle);
                     }));
+                    h().record.store(false, Ordering::SeqCst);
                     drop(logger);
                     ev["ret"] = json!(if r2.is_err() { "panic:shutdown".to_string() } else { ret });
                     ev["blocked"] = json!(blocked);
@@ -364,9 +409,27 @@ pub fn run(args: &[String]) {
         }
         let mut pos = 0usize;
         ev["errs"] = json!(flw::new_errs(&errfile, &mut pos));
+        // the events of the run, in the order in which they were recorded (one mutex orders them all)
+        let mut lines = Vec::new();
+        if tracing {
+            for (name, arg, thread) in h().take_points() {
+                if let Some(mut x) = conc_event(&name, &arg, &thread) {
+                    x["sc"] = scid.clone();
+                    x["n"] = json!(lines.len() + 2);
+                    lines.push(x);
+                }
+            }
+        }
+        begin["conf"] = json!(tracing);
+        begin["nev"] = json!(lines.len());
+        ev["n"] = json!(lines.len() + 2);
+        writeln!(outw, "{}", begin).unwrap();
+        for x in &lines {
+            writeln!(outw, "{}", x).unwrap();
+        }
         writeln!(outw, "{}", ev).unwrap();
         nsc += 1;
-        nev += 2;
+        nev += 2 + lines.len();
         let _ = std::fs::remove_dir_all(&dir);
         let _ = std::fs::remove_file(&errfile);
     }
